@@ -266,9 +266,10 @@ class Compiler:
             command = builtin_commands.get(insn.name.name) or builtin_commands.get("." + insn.name.name)
             is_variable = any(isinstance(self.symbols.get(name, (None,))[0], Assignment) for name in (state["internal_symbol_prefix"] + insn.name.name, insn.name.name))
             if (command is not None or is_variable) and not getattr(command, "takes_code_block", False):
+                block = insn.operands[-1]
                 reports.error(
                     "wrong-operands",
-                    (insn.operands[-1].ctx_start, insn.operands[-1].ctx_end, f"'{insn.name.name}' does not take a code block")
+                    (getattr(block, "ctx", block.ctx_start), block.ctx_end, f"'{insn.name.name}' does not take a code block")
                 )
                 return None
 
